@@ -36,6 +36,7 @@ from .fortran_funcs import fortran_funcs
 from ..parser import replace
 
 # external _imports
+import re
 import subprocess
 import sys
 import os
@@ -100,12 +101,25 @@ class FortranBackend(BaseBackend):
 
         # define fortran-specific imports
         self._imports.pop(0)
-        self._imports.append("double precision :: PI = 4.0*atan(1.0)")
+        self._imports.append("double precision :: PI = 4.0d0*atan(1.0d0)")
         self._imports.append("complex :: I = (0.0, 1.0)")
 
     def add_var_update(self, lhs: ComputeVar, rhs: str, lhs_idx: Optional[str] = None, rhs_shape: Optional[tuple] = ()):
         self.register_vars([lhs])
         super().add_var_update(lhs, rhs, lhs_idx, rhs_shape)
+
+    # real literals such as `2.463` or `1e-3` are SINGLE precision constants in Fortran, whatever the kind of the
+    # variables they are combined with; in a double precision build they have to carry a `d` exponent
+    _real_literal = re.compile(r'(?<![\w.])(\d+\.\d*|\.\d+)(?:[eE]([-+]?\d+))?(?![\w.])|(?<![\w.])(\d+)[eE]([-+]?\d+)(?![\w.])')
+
+    def _format_assignment(self, lhs: str, rhs: str, indexed: bool) -> str:
+        if '64' in str(self._float_precision):
+            def _dbl(m):
+                if m.group(1) is not None:
+                    return f"{m.group(1)}d{m.group(2) or '0'}"
+                return f"{m.group(3)}d{m.group(4)}"
+            rhs = self._real_literal.sub(_dbl, rhs)
+        return super()._format_assignment(lhs, rhs, indexed)
 
     def create_index_str(self, idx: Union[str, int, tuple], separator: str = ',', apply: bool = True,
                          **kwargs) -> Tuple[str, dict]:
